@@ -55,7 +55,8 @@ BRANCH_NAMES = ["origin/release/1.0", "origin/release/1.10", "origin/release/1.2
                 "origin/release/10.1", "origin/release/9.9", "origin/master", "origin/main",
                 "origin/release/1.2.1", "origin/release/1.02", "origin/release/2-9", "origin/release/2-10",
                 "origin/release/3_1", "origin/release/3_10", "origin/release/rc-2", "origin/release/rc-10"]
-TEXTS = ["BUG-7", "BUG-71", "fix", "BUG-7 ", " change", "fix "]
+# (a search text may span a line break of the message)
+TEXTS = ["BUG-7", "BUG-71", "fix", "BUG-7 ", " change", "fix ", "\n\nrelated to BUG-7", "\nrelated"]
 
 
 def gen_history(rng, max_commits=25):
@@ -121,7 +122,8 @@ def gen_history(rng, max_commits=25):
         decoys = {"origin/master": rng.choice(ids)}
         if rng.random() < 0.5:
             decoys["origin/release/1.0"] = rng.choice(ids)
-        return mg.Repo("r", commits, heads, tags, remote="upstream", decoys=decoys)
+        # (a remote's name may contain a slash)
+        return mg.Repo("r", commits, heads, tags, remote=rng.choice(["upstream", "upstream", "up/stream"]), decoys=decoys)
     return mg.Repo("r", commits, heads, tags)
 
 
